@@ -258,6 +258,33 @@ class HSym(HBase):
         else:
             self.checks.append((label, 'unknown'))
 
+    def check_close(self, a, b, atol, label, detail=None):
+        """|a - b| <= atol elementwise (for comparisons against quantities the implementation computes in doubles)"""
+        a = np.asarray(a, dtype=object)
+        b = np.asarray(b, dtype=object)
+        if a.shape != b.shape:
+            self.check(False, label, "%s [shape %s vs %s]" % (detail, a.shape, b.shape))
+            return
+        conds = []
+        for x, y in zip(a.flat, b.flat):
+            lx, ly = lift(x), lift(y)
+            if core._is_special(lx) or core._is_special(ly) or lx is NotImplemented or ly is NotImplemented:
+                if not ((core._is_special(lx) and core._is_special(ly)) and (lx == ly or (lx != lx and ly != ly))):
+                    self.check(False, label, "%s [non-finite]" % (detail,))
+                    return
+                continue
+            d = lx - ly
+            if d.c is not None:
+                if abs(d.c) > atol:
+                    self.check(False, label, detail)
+                    return
+                continue
+            conds.append(z3.And(d.rt <= atol, d.rt >= -atol))
+        if not conds:
+            self.checks.append((label, 'unsat'))
+            return
+        self.check(SymBool(z3.And(*conds)), label, detail)
+
     def check_eq(self, a, b, label, detail=None):
         """a == b, elementwise for arrays (exact over the reals for symbolic entries)."""
         conds = []
@@ -369,6 +396,12 @@ class HConc(HBase):
 
     def check_possible(self, cond, label, detail=None):
         self.check(cond, label, detail)
+
+    def check_close(self, a, b, atol, label, detail=None):
+        a = np.asarray(a, dtype=float)
+        b = np.asarray(b, dtype=float)
+        ok = a.shape == b.shape and bool(np.all((np.abs(a - b) <= atol * 1.000001 + 1e-12) | (np.isnan(a) & np.isnan(b))))
+        self.check(ok, label, detail)
 
     def check_eq(self, a, b, label, detail=None):
         self.check(self._eq(a, b), label, detail)
